@@ -11,6 +11,8 @@ ASAN := -O1 -fsanitize=address,undefined -fno-sanitize-recover=undefined -fno-om
 C19_SRC := checks/c19/main.cpp checks/c19/seq.cpp checks/c19/sum.cpp checks/c19/prod.cpp
 C19_INC := -include sim/redirect_malloc.hpp
 
+C20_SRC := checks/c20/main.cpp $(wildcard checks/c20/kinds_*.cpp)
+
 define flavour_rules
 # $(1)=flavour name, $(2)=flags
 $(B)/$(1)/c19/%.o: checks/c19/%.cpp
@@ -19,6 +21,11 @@ $(B)/$(1)/c19/%.o: checks/c19/%.cpp
 $(B)/$(1)/sim/%.o: sim/%.cpp
 	@mkdir -p $$(dir $$@)
 	$(CXX) $(BASE) $(2) -c $$< -o $$@
+$(B)/$(1)/c20/%.o: checks/c20/%.cpp
+	@mkdir -p $$(dir $$@)
+	$(CXX) $(BASE) $(2) -c $$< -o $$@
+$(B)/$(1)/c20/c20: $(patsubst checks/c20/%.cpp,$(B)/$(1)/c20/%.o,$(C20_SRC)) $(B)/$(1)/sim/hostheap.o
+	$(CXX) $(2) $$^ -o $$@
 $(B)/$(1)/c19/c19: $(patsubst checks/c19/%.cpp,$(B)/$(1)/c19/%.o,$(C19_SRC)) $(B)/$(1)/sim/hostheap.o
 	$(CXX) $(2) $$^ -o $$@
 endef
@@ -28,9 +35,11 @@ $(eval $(call flavour_rules,asan,$(ASAN)))
 
 c19-plain: $(B)/plain/c19/c19
 c19-asan: $(B)/asan/c19/c19
+c20-plain: $(B)/plain/c20/c20
+c20-asan: $(B)/asan/c20/c20
 
 -include $(shell find $(B) -name '*.d' 2>/dev/null)
 
-.PHONY: c19-plain c19-asan clean
+.PHONY: c19-plain c19-asan c20-plain c20-asan clean
 clean:
 	rm -rf $(B)
